@@ -97,6 +97,46 @@ def case_patch(fam, rep):
     return fn
 
 
+def case_patch_lagrange(order, dim, rep):
+    """Displacement patch test on an arbitrary-order Lagrange cell with displaced interior nodes (curved interior)."""
+    def fn(run):
+        import felupe as fem
+        rng = rng_for(run.seed, "C09", "patch-lagrange", order, dim, rep)
+        mesh = gen.lagrange_mesh(order, dim)
+        X = mesh.points.copy()
+        lo, hi = X.min(0), X.max(0)
+        onb = np.any(np.isclose(X, lo) | np.isclose(X, hi), axis=1)
+        h = float(np.min(hi - lo)) / order
+        X[~onb] += 0.15 * h * rng.uniform(-1, 1, X[~onb].shape)
+        mesh = mesh.copy(points=X)
+        reg = fem.RegionLagrange(mesh, order=order, dim=dim)
+        if not np.all(reg.dV > 0):
+            run.skip("homogeneous.patch", "displaced interior nodes make the cell invalid")
+            return
+        field = fem.FieldContainer([fem.Field(reg, dim=dim) if dim == 3 else fem.FieldPlaneStrain(reg, dim=2)])
+        name = ["neo_hooke", "neo_hooke_compressible"][rep % 2]
+        umat, W, p = ref_material(rng, name)
+        while True:
+            A = np.eye(dim) + 0.3 * rng.uniform(-1, 1, (dim, dim)) / np.sqrt(dim)
+            if np.linalg.det(A) > 0.5:
+                break
+        uex = X @ (A - np.eye(dim)).T
+        b = {"all": fem.Boundary(field[0], mask=onb.reshape(-1, 1), value=uex[onb])}
+        dof0, dof1 = fem.dof.partition(field, b)
+        ext0 = fem.dof.apply(field, b, dof0)
+        try:
+            res = fem.newtonrhapson(items=[fem.SolidBody(umat, field)], dof0=dof0, dof1=dof1, ext0=ext0, tol=1e-11, verbose=False)
+        except ValueError as exc:
+            run.skip("homogeneous.patch", "Newton did not converge: " + str(exc).strip()[:40])
+            return
+        u = res.x[0].values
+        grp = "lagrange[order<=2]" if order <= 2 else ("lagrange[order>=3,dim=%d]" % dim)
+        run.compare("homogeneous.patch", "family=%s clause=affine-displacement" % grp, maxabs(u - uex) / max(maxabs(uex), 1e-300), 1e-8,
+                    "RegionLagrange(order=%d, dim=%d) with displaced interior nodes: computed displacements are not the prescribed affine map" % (order, dim),
+                    unit="patch:" + grp, config=("patch-lagrange", order, dim, name))
+    return fn
+
+
 def case_curve(loadcase, fam, name, rep):
     def fn(run):
         import felupe as fem
@@ -337,6 +377,9 @@ def cases(tier, seed):
     for fam in FAMS3 + FAMS2:
         for rep in range(reps if tier == "thorough" else 2):
             out.append(("patch:%s:%d" % (fam, rep), case_patch(fam, rep + (FAMS3 + FAMS2).index(fam))))
+    for order, dim in ((2, 2), (3, 2), (4, 2), (2, 3), (3, 3)):
+        for rep in range(reps):
+            out.append(("patch-lagrange:%d:%d:%d" % (order, dim, rep), case_patch_lagrange(order, dim, rep)))
     k = 0
     for loadcase in ("uniaxial", "biaxial"):
         fams = ["hexahedron", "tetra", "hexahedron20", "tetra10", "quad", "triangle", "quad8", "quad9", "triangle6", "hexahedron27"]
@@ -356,7 +399,7 @@ def cases(tier, seed):
 SPEC = {
     "required_units": ["patch:" + f for f in FAMS3 + FAMS2] + ["patch:tetraMINI:bubble", "patch:hexahedron:F", "curve:uniaxial:3d", "curve:uniaxial:planestrain",
                        "curve:biaxial:3d", "curve:biaxial:planestrain", "curve:uniaxial:x", "curve:uniaxial:field", "view:Uniaxial", "view:Planar Shear",
-                       "view:Biaxial", "curve:multi:two-steps", "curve:multi:no-ramp", "curve:multi:mixed", "view:statevars:Uniaxial", "view:statevars:Planar Shear", "view:statevars:Biaxial", "view:Uniaxial (Incompressible)", "view:Planar Shear (Incompressible)", "view:Biaxial (Incompressible)"]
+                       "view:Biaxial", "patch:lagrange[order<=2]", "patch:lagrange[order>=3,dim=2]", "curve:multi:two-steps", "curve:multi:no-ramp", "curve:multi:mixed", "view:statevars:Uniaxial", "view:statevars:Planar Shear", "view:statevars:Biaxial", "view:Uniaxial (Incompressible)", "view:Planar Shear (Incompressible)", "view:Biaxial (Incompressible)"]
     + ["curve:material:" + n for n in REF],
     "rule": ("displacement patch tests (random affine map on the whole boundary) on 12 element families with interior distortion, 3D and plane "
              "strain; uniaxial and biaxial load cases with CharacteristicCurve jobs (1, 3, 7 substeps, cyclic ramps, with/without symmetry "
